@@ -292,6 +292,16 @@ class Engine:
         env.vars["__name__"] = "pdpy11." + name
         for node in tree.body:
             self.exec_toplevel(node, mod)
+        if name in EAGER_MODULES:
+            # import-time registries (file_formats): apply the decorators now and keep the registry across paths
+            saved = self.path
+            if self.path is None: self.path = Path([])
+            try:
+                for nm in list(env.vars):
+                    self.resolve_global(mod, nm)
+            finally:
+                self.path = saved
+            mod["frozen"] = {nm: True for nm in mod.get("const_src", {})}
         return mod
 
     def exec_toplevel(self, node, mod):
@@ -832,11 +842,12 @@ class Engine:
             if attr in ("size",) and v.size is not None: return v.size
             raise Unsupported(f"Lazy.{attr}")
         if isinstance(v, tuple) and v and isinstance(v[0], str) and v[0] == "module":
-            if (v[1], attr) in MODULE_OVERRIDES: return MODULE_OVERRIDES[(v[1], attr)]
+            if (v[1], attr) in MODULE_OVERRIDES and not getattr(self, "real_reports", False): return MODULE_OVERRIDES[(v[1], attr)]
             m = self.load_module(v[1]); return self.resolve_global(m, attr)
         if isinstance(v, tuple) and v and isinstance(v[0], str) and v[0] == "pymodule":
             key = f"{v[1]}.{attr}"
             if key in BUILTINS: return BUILTINS[key]
+            if any(k.startswith(key + ".") for k in BUILTINS): return ("pymodule", key)
             raise Unsupported(f"python module attr {key}")
         if isinstance(v, SuperV):
             for b in v.owner.bases:
@@ -910,6 +921,10 @@ class Engine:
             raise Unsupported(f"bytearray.{attr}")
         if isinstance(v, list) and attr == "append":
             return Builtin("list.append", lambda eng, x, _v=v: _v.append(x))
+        if isinstance(v, list) and attr == "sort":
+            def lsort(eng, key=None, _v=v):
+                r = b_sort(eng, list(_v), key); _v[:] = r
+            return Builtin("list.sort", lsort)
         if isinstance(v, list) and attr in ("pop", "remove", "insert", "extend", "reverse", "copy", "index", "count", "clear"):
             def lmeth(eng, *a, _m=getattr(v, attr)):
                 try: return _m(*a)
@@ -999,6 +1014,12 @@ class Engine:
 
     def sym_slice(self, v, lo, hi):
         """python slicing of a symbolic sequence with clamping; supports non-negative bounds and negative concrete bounds"""
+        if is_symstr(v) and hi is None and isinstance(lo, int) and lo >= 0:
+            head, rest = head_const(v)
+            if len(head) >= lo: return join_parts(head[lo:], rest)
+        if is_symstr(v) and lo is None and isinstance(hi, int) and hi < 0:
+            rest, tail = tail_const(v)
+            if len(tail) >= -hi: return join_parts("", rest + ([z3.StringVal(tail[:hi])] if tail[:hi] else []))
         seq = v.arr if isinstance(v, SymList) else v
         ln = v.n if isinstance(v, SymList) else (z3.Length(seq) if not is_symbytes(seq) else slen(seq))
         def norm(b, default):
@@ -1097,6 +1118,7 @@ class Engine:
             if f.qualname in self.contracts and f.qualname != getattr(self, "verifying", None):
                 return self.contracts[f.qualname](self, *args, **kwargs)
             return self.call_func(f, args, kwargs)
+        if isinstance(f, Opaque): return Opaque("result")        # a method of diagnostic text: text again
         if isinstance(f, ExcName): return Exc(f.name, tuple(args))
         if isinstance(f, ClassV):
             if f.name in EXC_CLASSES or "Exception" in f.mro_names(): return Exc(f.name, tuple(args))
@@ -1246,6 +1268,14 @@ class Engine:
             n_ = z3.simplify(z3.If(v.stop > v.start, v.stop - v.start, 0))
             if self.branch(n_ != k): raise PyRaise(Exc("ValueError"))
             for j, tt in enumerate(t.elts): self.assign_target(tt, z3.Select(v.arr, v.start + j), env, mod)
+        elif isinstance(t, (ast.Tuple, ast.List)) and any(isinstance(e, ast.Starred) for e in t.elts):
+            vs = list(self.iterate(v))
+            k = [i for i, e in enumerate(t.elts) if isinstance(e, ast.Starred)][0]
+            after = len(t.elts) - k - 1
+            if len(vs) < len(t.elts) - 1: raise PyRaise(Exc("ValueError"))
+            for tt, vv in zip(t.elts[:k], vs[:k]): self.assign_target(tt, vv, env, mod)
+            self.assign_target(t.elts[k].value, vs[k:len(vs) - after], env, mod)
+            for tt, vv in zip(t.elts[k + 1:], vs[len(vs) - after:]): self.assign_target(tt, vv, env, mod)
         elif isinstance(t, (ast.Tuple, ast.List)):
             vs = list(self.iterate(v))
             if len(vs) != len(t.elts): raise PyRaise(Exc("ValueError"))
@@ -1441,11 +1471,13 @@ class Engine:
         specs = spec if isinstance(spec, tuple) else (spec,)
         for s in specs:
             name = s.name if isinstance(s, (ClassV, ExcName)) else getattr(s, "__name__", str(s))
-            if exc.cls == name or name in ("Exception", "BaseException"): return True
+            if exc.cls == name or name == "BaseException": return True
+            if name == "Exception" and exc.cls not in ("SystemExit", "KeyboardInterrupt", "GeneratorExit"): return True
             if name in EXC_PARENTS.get(exc.cls, ()): return True
         return False
 
-DECORATORS_INTERPRETED = {"operators"}
+DECORATORS_INTERPRETED = {"operators", "formats"}
+EAGER_MODULES = {"formats"}
 EXC_CLASSES = {"RecoverableError", "UnrecoverableError", "NotReadyError", "DeferredCycle"}
 EXC_PARENTS = {"FileNotFoundError": ("OSError", "IOError"), "IsADirectoryError": ("OSError", "IOError"), "ZeroDivisionError": ("ArithmeticError",),
                "UnicodeEncodeError": ("UnicodeError", "ValueError"), "UnicodeDecodeError": ("UnicodeError", "ValueError"),
@@ -1555,9 +1587,31 @@ def b_wait(eng, v):
     if isinstance(v, Lazy): return v.final
     return v
 
+def b_abs(eng, v):
+    v = eng.undyn(v)
+    if not is_sym(v): return abs(v)
+    return v if eng.branch(v >= 0) else -v
+
+def b_oct(eng, v):
+    v = eng.undyn(v)
+    if not is_sym(v): return oct(v)
+    eng.assumptions.add("oct() of a symbolic int is '0o' / '-0o' followed by an uninterpreted non-empty digit string octdigits(|n|)")
+    if eng.branch(v >= 0):
+        d = octstr(v); pre = "0o"
+    else:
+        d = octstr(-v); pre = "-0o"
+    eng.assume(z3.Length(d) >= 1)
+    return z3.Concat(z3.StringVal(pre), d)
+
 def b_int(eng, v, base=10):
     if isinstance(v, SymBits): 
         assert base == 2; return v.value()
+    if is_symstr(v):
+        if base == 8: return octval(v)
+        if base == 10:
+            if eng.branch(z3.StrToInt(v) < 0): raise PyRaise(Exc("ValueError"))
+            return z3.StrToInt(v)
+        raise Unsupported("int(symbolic str, %r)" % base)
     if is_sym(v): return v
     return int(v, base) if isinstance(v, str) else int(v)
 
@@ -1636,6 +1690,9 @@ BUILTINS = {
     "sum": Builtin("sum", lambda eng, it, start=0: b_sum(eng, it, start)),
     "all": Builtin("all", lambda eng, it: all(eng.truth(x) for x in eng.iterate(it))),
     "any": Builtin("any", lambda eng, it: any(eng.truth(x) for x in eng.iterate(it))),
+    "oct": Builtin("oct", b_oct),
+    "abs": Builtin("abs", lambda eng, v: b_abs(eng, v)),
+    "sorted": Builtin("sorted", lambda eng, it, key=None: b_sort(eng, list(eng.iterate(it)), key)),
     "repr": Builtin("repr", lambda eng, v: Opaque("repr")),
     "print": Builtin("print", lambda eng, *a, **k: eng.path.events.append(("print", "stderr" if "file" in k else "stdout"))),
     "chr": Builtin("chr", lambda eng, v: b_chr(eng, v)),
@@ -1646,6 +1703,16 @@ for _n in ("Exception", "BaseException", "TypeError", "ValueError", "KeyError", 
            "LookupError", "RecursionError"):
     BUILTINS[_n] = ExcName(_n)
 BUILTINS["struct.error"] = ExcName("struct.error")
+BUILTINS["SystemExit"] = ExcName("SystemExit")
+BUILTINS["LookupError"] = ExcName("LookupError")
+def _sys_exit(eng, code=0):
+    eng.path.events.append(("exit", code))
+    raise PyRaise(Exc("SystemExit", (code,)))
+BUILTINS["sys.exit"] = Builtin("sys.exit", _sys_exit)
+BUILTINS["sys.stderr"] = Opaque("stderr")
+BUILTINS["traceback.print_exc"] = Builtin("traceback.print_exc", lambda eng: eng.path.events.append(("print", "stderr")))
+for _n in ("python_implementation", "python_version", "platform"):
+    BUILTINS["platform." + _n] = Builtin("platform." + _n, lambda eng: Opaque("platform"))
 def b_type_hints(eng, fn):
     out = {}
     if isinstance(fn, Func) and getattr(fn.node, "returns", None) is not None:
@@ -1669,7 +1736,7 @@ class ByteBuf:
 
 strupper = z3.Function("strupper", z3.StringSort(), z3.StringSort())
 strlower = z3.Function("strlower", z3.StringSort(), z3.StringSort())
-SYMSTR_METHODS = {"upper", "lower", "index", "find", "endswith", "startswith", "encode", "ljust", "split", "rpartition", "partition"}
+SYMSTR_METHODS = {"upper", "lower", "index", "find", "endswith", "startswith", "encode", "ljust", "rjust", "split", "rpartition", "partition"}
 
 class SymSplit:
     """s.split(sep) of a symbolic string: only the first and the last piece are modelled"""
@@ -1698,6 +1765,31 @@ def str_parts(s):
         for c in s.children(): out += str_parts(c)
         return out
     return [s]
+
+def head_const(s):
+    """(leading constant text, list of remaining parts) of a string term"""
+    parts = str_parts(s)
+    head = ""
+    k = 0
+    while k < len(parts) and z3.is_string_value(parts[k]) and parts[k].as_string().isascii():
+        head += parts[k].as_string(); k += 1
+    return head, parts[k:]
+
+def join_parts(head, rest):
+    ps = ([z3.StringVal(head)] if head else []) + list(rest)
+    if not ps: return z3.StringVal("")
+    return ps[0] if len(ps) == 1 else z3.Concat(*ps)
+
+def tail_const(s):
+    parts = str_parts(s)
+    tail = ""
+    k = len(parts)
+    while k > 0 and z3.is_string_value(parts[k - 1]) and parts[k - 1].as_string().isascii():
+        tail = parts[k - 1].as_string() + tail; k -= 1
+    return parts[:k], tail
+
+octstr = z3.Function("octdigits", z3.IntSort(), z3.StringSort())      # octal digits of a non-negative int, no prefix
+octval = z3.Function("int8", z3.StringSort(), z3.IntSort())           # int(text, 8)
 
 def substr1(s, j):
     """s[j] (a one-character string) for concrete j, picked structurally when the parts have known lengths"""
@@ -1757,11 +1849,37 @@ def symstr_method(eng, s, attr, a):
         r = str_find(eng, s, zstr(a[0]))
         if attr == "index" and eng.branch(r < 0): raise PyRaise(Exc("ValueError"))
         return r
-    if attr == "endswith": return z3.SuffixOf(zstr(a[0]), s)
-    if attr == "startswith": return z3.PrefixOf(zstr(a[0]), s)
+    if attr == "endswith":
+        if isinstance(a[0], str):
+            rest, tail = tail_const(s)
+            if len(tail) >= len(a[0]): return tail.endswith(a[0])
+        return z3.SuffixOf(zstr(a[0]), s)
+    if attr == "startswith":
+        if isinstance(a[0], str):
+            head, rest = head_const(s)
+            if len(head) >= len(a[0]): return head.startswith(a[0])
+            if head and not a[0].startswith(head): return False
+        return z3.PrefixOf(zstr(a[0]), s)
+    if attr == "rjust":
+        n, fill = a[0], (a[1] if len(a) > 1 else " ")
+        if not isinstance(n, int) or n > 32 or not isinstance(fill, str) or len(fill) != 1: raise Unsupported("rjust with symbolic width")
+        kl = known_len(s)
+        if kl is not None: return s if kl >= n else z3.Concat(z3.StringVal(fill * (n - kl)), s)
+        L = z3.Length(s); r = s
+        for k in range(n - 1, -1, -1):
+            r = z3.If(L == k, z3.Concat(z3.StringVal(fill * (n - k)), s) if k else z3.StringVal(fill * n), r)
+        return r
     if attr == "split":
         if len(a) != 1 or not isinstance(a[0], str) or len(a[0]) != 1: raise Unsupported("str.split form")
         return SymSplit(s, a[0])
+    if attr == "partition" and len(a) == 1 and isinstance(a[0], str) and a[0]:
+        head, rest = head_const(s)
+        k = head.find(a[0])
+        if k >= 0: return (head[:k], a[0], join_parts(head[k + len(a[0]):], rest))      # the separator first occurs inside the constant head
+    if attr == "rpartition" and len(a) == 1 and isinstance(a[0], str) and a[0]:
+        rest, tail = tail_const(s)
+        k = tail.rfind(a[0])
+        if k >= 0: return (join_parts("", rest + ([z3.StringVal(tail[:k])] if tail[:k] else [])), a[0], tail[k + len(a[0]):])
     if attr in ("partition", "rpartition"):
         if len(a) != 1 or not isinstance(a[0], str) or not a[0]: raise Unsupported("str.partition form")
         sep = z3.StringVal(a[0]); L = z3.Length(s)
@@ -1799,6 +1917,27 @@ def b_range(eng, *a):
     if len(a) == 1: return SymRange(0, a[0], 1)
     if len(a) == 2: return SymRange(a[0], a[1], 1)
     return SymRange(a[0], a[1], a[2])
+
+
+def tuple_lt(eng, a, b):
+    """a < b for sort keys: ints, strings or tuples of those (lexicographic), symbolic components allowed; forks"""
+    if isinstance(a, tuple) and isinstance(b, tuple):
+        for x, y in zip(a, b):
+            if eng.truth(eng.compare(ast.Lt(), x, y)): return True
+            if eng.truth(eng.compare(ast.Lt(), y, x)): return False
+        return len(a) < len(b)
+    return eng.truth(eng.compare(ast.Lt(), a, b))
+
+def b_sort(eng, items, key=None):
+    """stable insertion sort with the comparisons decided by forking: exact for the small lists of the units"""
+    if len(items) > 4: raise Unsupported("sort of more than 4 symbolic items")
+    keyed = [(eng.call(key, [x], {}) if key is not None else x, x) for x in items]
+    out = []
+    for k, x in keyed:
+        pos = len(out)
+        while pos > 0 and tuple_lt(eng, k, out[pos - 1][0]): pos -= 1
+        out.insert(pos, (k, x))
+    return [x for _, x in out]
 
 
 def b_bytes(eng, v=b""):
